@@ -34,7 +34,7 @@ RULE = (
     "kinds. Distinct = canonical JSON of the case."
 )
 ASSUMPTIONS = [
-    "destinations, serializers and extractors raise Exception subclasses only, extractors return dicts (caller contract)",
+    "destinations, serializers and extractors raise Exception subclasses only; an extractor returns a dict, None, or an iterable of pairs that raises part way",
     "field names are strings that do not collide with the logging functions' own keyword parameters",
 ]
 
